@@ -742,10 +742,10 @@ Definition R_rows : list row :=
     {| r_addr := 0x2008; r_file := 1; r_line := 9; r_stmt := true |};
     {| r_addr := 0x2020; r_file := 1; r_line := 10; r_stmt := true |} ].
 Definition R_fact : func :=
-  {| f_lo := 0x1000; f_hi := 0x1100; f_prolog_end := 0x1008; f_epilog := Some 0x1080;
+  {| f_lo := 0x1000; f_hi := 0x1100; f_prolog_end := 0x1008; f_epilog := Some 0x1080; f_epilog_end := None;
      f_file := Some 1; f_inline := [] |}.
 Definition R_main : func :=
-  {| f_lo := 0x2000; f_hi := 0x2100; f_prolog_end := 0x2008; f_epilog := None;
+  {| f_lo := 0x2000; f_hi := 0x2100; f_prolog_end := 0x2008; f_epilog := None; f_epilog_end := None;
      f_file := Some 1; f_inline := [] |}.
 Definition R_funcs := [R_fact; R_main].
 Definition R_units : list (N * N) := [(0x1000, 0x3000)].
@@ -816,7 +816,7 @@ Definition U_rows : list row :=
     {| r_addr := 0x3040; r_file := 1; r_line := 23; r_stmt := true |};
     {| r_addr := 0x3060; r_file := 1; r_line := 24; r_stmt := true |} ].
 Definition U_g : func :=
-  {| f_lo := 0x3000; f_hi := 0x3100; f_prolog_end := 0x3008; f_epilog := Some 0x3060;
+  {| f_lo := 0x3000; f_hi := 0x3100; f_prolog_end := 0x3008; f_epilog := Some 0x3060; f_epilog_end := None;
      f_file := Some 1; f_inline := [] |}.
 Definition U_trace : list pt :=
   [ P 0x3008 0x7000; P 0x3010 0x7000; P 0x3020 0x7000; P 0x3030 0x7000; P 0x3040 0x7000;
